@@ -456,4 +456,63 @@ def runCase (nk : Nat) (progs : List (List Op)) (sched : List Nat) : String :=
              else if (firstEnabled nk y.g y.threads 0).isSome then "end:fuel" else "end:deadlock"
   ";".intercalate (y.out.reverse ++ [fin])
 
+/-! ### clients whose calls are observed whole (`listeners` lines)
+
+`listen_unix.go` uses `listenerPool` only to COUNT the sockets bound to an address: after a successful bind
+`listenReusable` does `LoadOrStore(lnKey, nil)`, the wrapper's `Close` does `Delete(lnKey)`, and
+`caddy.ListenerUsage` reads the count.  These client calls are run one at a time (whole calls, no interleaving
+inside a call): a schedule entry runs the next operation of a thread to completion. -/
+
+/-- the client operations of a listener-owning config towards the pool -/
+inductive ListenerOp where
+  | listen (k : Nat)         -- NetworkAddress.Listen succeeds: one more socket on address k
+  | listenFails (k : Nat)    -- the bind is refused: nothing is counted
+  | closeAll                 -- the config closes all its listeners, oldest first
+deriving DecidableEq, Repr
+
+def listenerOp : ListenerOp → Op
+  | .listen k => .lsp k
+  | .listenFails k => .refs k   -- no effect on the pool (`References` is a pure read)
+  | .closeAll => .closeAll
+
+/-- run the next operation of thread `t` to completion -/
+def stepOp (nk : Nat) : Nat → Sys → Nat → Sys
+  | 0, y, _ => y
+  | fuel + 1, y, t =>
+    match y.threads[t]? with
+    | none => y
+    | some th =>
+      if th.prog.isEmpty then y else
+      match (tstep nk y t).threads[t]? with
+      | none => tstep nk y t
+      | some th' => if th'.prog.length < th.prog.length then tstep nk y t else stepOp nk fuel (tstep nk y t) t
+
+/-- index of the first thread that still has an operation -/
+def firstUnfinished : List Thread → Nat → Option Nat
+  | [], _ => none
+  | th :: ths, i => if th.prog.isEmpty then firstUnfinished ths (i + 1) else some i
+
+/-- one whole-call step with its token `<t>:k/<count of every key>` (`-` when the thread has finished) -/
+def atomicStep (nk : Nat) (acc : Sys × List String) (t : Nat) : Sys × List String :=
+  let fin := match acc.1.threads[t]? with
+    | some th => th.prog.isEmpty
+    | none => true
+  let y' := stepOp nk 24 acc.1 t
+  (y', (toString t ++ (if fin then ":-/" else ":k/") ++ showRefs y'.g nk) :: acc.2)
+
+def drainAtomic (nk : Nat) : Nat → Sys × List String → Sys × List String
+  | 0, a => a
+  | fuel + 1, a =>
+    match firstUnfinished a.1.threads 0 with
+    | none => a
+    | some t => drainAtomic nk fuel (atomicStep nk a t)
+
+def runAtomicSys (nk : Nat) (progs : List (List Op)) (sched : List Nat) : Sys × List String :=
+  drainAtomic nk (progSteps (progs.map fun p => { prog := p }) + 1)
+    (sched.foldl (atomicStep nk) ({ g := G.init, threads := progs.map fun p => { prog := p } }, []))
+
+def runCaseAtomic (nk : Nat) (progs : List (List Op)) (sched : List Nat) : String :=
+  let a := runAtomicSys nk progs sched
+  ";".intercalate (a.2.reverse ++ [if allFinished a.1.threads then "end:ok" else "end:unfinished"])
+
 end CaddyModel.C04
